@@ -32,6 +32,7 @@ type OutStep struct {
 type OutScenario struct {
 	Name  string    `json:"name"`
 	Cap   int       `json:"cap"`
+	Aged  bool      `json:"aged"` // messages come from an MQTT 5 publisher and expire after 1 s (server maximum); "age" steps let time pass
 	Steps []OutStep `json:"steps"`
 }
 
@@ -362,6 +363,11 @@ func RunOutPath(sc OutScenario) (lines []OutLine) {
 	caps := mqtt.NewDefaultServerCapabilities()
 	caps.MaximumClientWritesPending = int32(sc.Cap)
 	caps.MaximumMessageExpiryInterval = 0
+	small, big := outSmall, outBig
+	if sc.Aged {
+		caps.MaximumMessageExpiryInterval = 1
+		small, big = outSmall+5, outBig+5 // the forwarded PUBLISH carries a Message Expiry Interval
+	}
 	r.srv = mqtt.New(&mqtt.Options{Capabilities: caps, InlineClient: true, ClientNetWriteBufferSize: outBuf,
 		Logger: slog.New(slog.NewTextHandler(nullWriter{}, &slog.HandlerOptions{Level: slog.LevelError + 8}))})
 	_ = r.srv.AddHook(&outHook{r: r}, nil)
@@ -430,7 +436,32 @@ func RunOutPath(sc OutScenario) (lines []OutLine) {
 	}
 	r.cl.Store(cl)
 	setup = nil
-	_ = r.srv.Publish("t/a", pubPayload(0, outSmall, 0)[:3], false, 0)
+	// where the messages come from: the inline client, or (aged) an MQTT 5 publisher on a connection of its own (not scheduled)
+	var pubConn *memConn
+	publish := func(payload []byte) bool {
+		if pubConn == nil {
+			return r.srv.Publish("t/a", payload, false, 0) == nil
+		}
+		pp := refcodec.New(refcodec.Publish, 5)
+		pp.Topic, pp.Payload, pp.HasProps = "t/a", payload, true
+		if pubConn.Send(refcodec.Encode(pp)) != nil || pubConn.Send([]byte{0xC0, 0}) != nil {
+			return false
+		}
+		// the PINGRESP tells that the broker has routed the PUBLISH before it
+		return waitFor(func() bool { b, _ := pubConn.Take(); return len(b) >= 2 })
+	}
+	if sc.Aged {
+		pubConn = newMemConn()
+		go func() { defer func() { _ = recover() }(); _ = r.srv.EstablishConnection("mem", pubConn) }()
+		pc := refcodec.New(refcodec.Connect, 5)
+		pc.ProtoName, pc.ProtoVersion, pc.ClientID, pc.ConnectFlags, pc.HasProps = "MQTT", 5, "pub", 2, true
+		_ = pubConn.Send(refcodec.Encode(pc))
+		if !waitFor(func() bool { b, _ := pubConn.Take(); return len(b) >= 4 }) {
+			return fail("publisher got no CONNACK")
+		}
+		defer pubConn.Drop()
+	}
+	_ = publish(pubPayload(0, small, 0)[:3])
 	if !waitFor(func() bool { take(); return len(setup) > 0 && r.loopG.Load() != 0 && cl.VerifOutboundQty() == 0 }) {
 		return fail("probe publish not delivered")
 	}
@@ -440,10 +471,10 @@ func RunOutPath(sc OutScenario) (lines []OutLine) {
 	if !waitFor(func() bool { take(); return len(setup) == 2 && r.rdG.Load() != 0 && r.conn.ReaderBlocked() }) {
 		return fail("probe PINGREQ not answered")
 	}
-	if base+3 != outSmall {
-		return fail(fmt.Sprintf("a small PUBLISH has %d bytes, the model assumes %d", base+3, outSmall))
+	if base+3 != small {
+		return fail(fmt.Sprintf("a small PUBLISH has %d bytes, the model assumes %d", base+3, small))
 	}
-	lines[0].Sizes = []int{base + 3, outBig, 2, outBuf}
+	lines[0].Sizes = []int{base + 3, big, 2, outBuf}
 	r.conn.maxW.Store(0)
 	r.gated.Store(true)
 
@@ -475,10 +506,13 @@ func RunOutPath(sc OutScenario) (lines []OutLine) {
 			}
 			got = r.collect(map[string]bool{"rd": true, "loop": false}, "")
 			ln.Got, ln.GotO = st.G, got["rd"]
+		case st.W == "env" && st.G == "age":
+			time.Sleep(2100 * time.Millisecond) // beyond the maximum message expiry of 1 s whatever the fraction of the second the message was created in
+			ln.Got, ln.GotO = "age", ""
 		case st.W == "env":
 			nextID++
-			total := map[string]int{"pub:small": outSmall, "pub:big": outBig, "pub:over": outMPS + 20}[st.G]
-			_ = r.srv.Publish("t/a", pubPayload(nextID, total, base), false, 0)
+			total := map[string]int{"pub:small": small, "pub:big": big, "pub:over": outMPS + 20}[st.G]
+			_ = publish(pubPayload(nextID, total, base))
 			got = r.collect(map[string]bool{"loop": st.OG == "loop.dequeued", "rd": false}, "")
 			ln.Got, ln.GotO = st.G, got["loop"]
 			if ln.GotO == "" {
